@@ -229,10 +229,15 @@ func wfRep(rep *RepData) bool {
 		forall(0, len(rep.Segments), func(i int) bool {
 			return rep.Segments[i].StartTime < rep.Segments[i].EndTime && rep.Segments[i].EndTime <= 2*maxLoopTicks
 		}) &&
-		forall(0, len(rep.Segments)-1, func(i int) bool { return rep.Segments[i].EndTime == rep.Segments[i+1].StartTime }) &&
-		forall(0, len(rep.Segments), func(i int) bool {
-			return forall(i+1, len(rep.Segments), func(j int) bool { return rep.Segments[i].EndTime <= rep.Segments[j].StartTime })
-		})
+		forall(0, len(rep.Segments)-1, func(i int) bool { return rep.Segments[i].EndTime == rep.Segments[i+1].StartTime })
+}
+
+// orderedRep: every segment ends no later than any later segment starts (follows from wfRep's
+// contiguity by induction; stated separately because the lookups by binary search need it).
+func orderedRep(rep *RepData) bool {
+	return forall(0, len(rep.Segments), func(i int) bool {
+		return forall(i+1, len(rep.Segments), func(j int) bool { return rep.Segments[i].EndTime <= rep.Segments[j].StartTime })
+	})
 }
 
 // sortedSegs: segment intervals are non-empty and ordered (value form of wfRep's ordering).
@@ -387,7 +392,7 @@ func specEarlyMS(availS, nowS, atoS float64) int {
 //@ func findSegMetaFromTime
 //@   returns  (sm, err)
 //@   nowrap
-//@   requires a != nil && wfRep(rep) && loopExact(a, rep) && wfCfg(cfg) && 0 <= nowMS && nowMS <= maxNowMS && time <= 4000000000000000000
+//@   requires a != nil && wfRep(rep) && orderedRep(rep) && loopExact(a, rep) && wfCfg(cfg) && 0 <= nowMS && nowMS <= maxNowMS && time <= 4000000000000000000
 //@   use      lemmaWrapDurIsRepDur(a, rep)
 //@   ensures  hit: err == nil ==> exists idx in [0, len(rep.Segments)) :: (int(rep.Segments[idx].StartTime) == int(time) - int(time)/wrapDurOf(a, rep)*wrapDurOf(a, rep) && sm.origTime == rep.Segments[idx].StartTime && sm.origNr == rep.Segments[idx].Nr && sm.newNr == uint32(specStartNr(cfg)+idx+int(time)/wrapDurOf(a, rep)*len(rep.Segments)) && sm.newDur == uint32(rep.Segments[idx].EndTime-rep.Segments[idx].StartTime))
 //@   ensures  fields: err == nil ==> sm.newTime == time && sm.rep == rep && sm.origDur == sm.newDur && int(sm.timescale) == rep.MediaTimescale
@@ -401,7 +406,7 @@ func specEarlyMS(availS, nowS, atoS float64) int {
 //@ lemma lemmaWrapDurIsRepDur
 //@   requires wfRep(rep) && loopExact(a, rep)
 //@   ensures  wrapDurOf(a, rep) == repDur(rep) && wrapDurOf(a, rep) >= 1 && wrapDurOf(a, rep) <= maxLoopTicks
-//@   ensures  forall i in [0, len(rep.Segments)) :: int(rep.Segments[i].EndTime) - int(rep.Segments[0].StartTime) <= wrapDurOf(a, rep)
+//@   ensures  orderedRep(rep) ==> forall i in [0, len(rep.Segments)) :: int(rep.Segments[i].EndTime) - int(rep.Segments[0].StartTime) <= wrapDurOf(a, rep)
 func lemmaWrapDurIsRepDur(a *asset, rep *RepData) {}
 
 // ---------------------------------------------------------------------------
@@ -507,3 +512,81 @@ func lemmaRefAvailAgrees(a *asset, cfg *ResponseConfig, k int, w uint64) {}
 //@   loop 1 invariant fresh(itvls)
 //@   loop 1 invariant forall k in [0, len(itvls)) :: itvls[k].utcS == utcStart/1000 + k && itvls[k].startMS == max((utcStart/1000+k)*1000, utcStart) + diff && itvls[k].endMS == max(min((utcStart/1000+k)*1000+cueDur, utcEndMS), max((utcStart/1000+k)*1000, utcStart)) + diff
 //@   loop 1 decreases utcEndMS/1000 + 1 - utcS
+
+// ---------------------------------------------------------------------------
+// C01/C04 lemmas over the contracts of the real lookup functions
+
+// lemmaDivStep: how quotient and remainder move from n to n+1.
+//@ lemma lemmaDivStep
+//@   requires n >= 0 && N >= 1
+//@   ensures  ((n+1)%N == n%N+1 && (n+1)/N == n/N) || ((n+1)%N == 0 && n%N == N-1 && (n+1)/N == n/N+1)
+func lemmaDivStep(n, N int) {}
+
+// lemmaGapFree: segment n+1 starts exactly where segment n ends, also across a loop wrap.
+//@ lemma lemmaGapFree
+//@   requires a != nil && wfRep(rep) && loopExact(a, rep) && 0 <= n && n <= 4294967295
+//@   use      lemmaWrapDurIsRepDur(a, rep)
+//@   use      lemmaDivStep(n, len(rep.Segments))
+//@   ensures  specStart(a, rep, n+1) == specEnd(a, rep, n)
+//@   ensures  specEnd(a, rep, n) == specStart(a, rep, n) + int(specDur(rep, n))
+//@   ensures  rep.Segments[0].StartTime == 0 ==> specStart(a, rep, n) == (n/len(rep.Segments))*repDur(rep) + int(rep.Segments[n%len(rep.Segments)].StartTime)
+func lemmaGapFree(a *asset, rep *RepData, n int) {}
+
+// lemmaServedGapFree: the statement of C01 on the real function: consecutive numbers are
+// served with consecutive sequence numbers and abutting media intervals, from the VoD
+// segments n mod N and (n+1) mod N.
+//@ lemma lemmaServedGapFree
+//@   requires a != nil && wfRep(rep) && loopExact(a, rep) && wfCfg(cfg) && 0 <= nowMS && nowMS <= maxNowMS && int(nr) >= specStartNr(cfg) && nr < 4294967295
+//@   use      lemmaGapFree(a, rep, int(nr)-specStartNr(cfg))
+//@   use      lemmaWrapDurIsRepDur(a, rep)
+func lemmaServedGapFree(a *asset, rep *RepData, nr uint32, cfg *ResponseConfig, nowMS int) {
+	assert(int(nr+1)-specStartNr(cfg) == (int(nr)-specStartNr(cfg))+1)
+	s1, e1 := findSegMetaFromNr(a, rep, nr, cfg, nowMS)
+	s2, e2 := findSegMetaFromNr(a, rep, nr+1, cfg, nowMS)
+	if e1 == nil && e2 == nil {
+		assert(s2.newNr == s1.newNr+1)
+		assert(s2.newTime == uint64(specEnd(a, rep, int(nr)-specStartNr(cfg))))
+		assert(s1.newTime == uint64(specStart(a, rep, int(nr)-specStartNr(cfg))) && s1.newDur == uint32(specDur(rep, int(nr)-specStartNr(cfg))))
+	}
+}
+
+// lemmaPhasesInOrder: for a fixed segment number the answer moves monotonically through
+// too early -> available -> gone as wall-clock time increases, never back.
+//@ lemma lemmaPhasesInOrder
+//@   requires a != nil && wfRep(rep) && loopExact(a, rep) && wfCfg(cfg) && 0 <= now1 && now1 <= now2 && now2 <= maxNowMS && int(nr) >= specStartNr(cfg)
+func lemmaPhasesInOrder(a *asset, rep *RepData, nr uint32, cfg *ResponseConfig, now1, now2 int) {
+	_, e1 := findSegMetaFromNr(a, rep, nr, cfg, now1)
+	_, e2 := findSegMetaFromNr(a, rep, nr, cfg, now2)
+	assert(implies(e1 == errGone, e2 == errGone))
+	assert(implies(e1 == nil, e2 == nil || e2 == errGone))
+	assert(implies(e2 == nil, e1 == nil || typeIsTooEarly(e1)))
+}
+
+// typeIsTooEarly: err is an errTooEarly value.
+func typeIsTooEarly(err error) bool {
+	_, ok := err.(errTooEarly)
+	return ok
+}
+
+// lemmaAvailableExactly: with a finite availabilityTimeOffset the segment is available exactly
+// from availabilityStartTime + segment end - offset, and stays available at least timeShiftBufferDepth.
+//@ lemma lemmaAvailableExactly
+//@   requires a != nil && wfRep(rep) && loopExact(a, rep) && wfCfg(cfg) && 0 <= nowMS && nowMS <= maxNowMS && int(nr) >= specStartNr(cfg)
+//@   requires cfg.AvailabilityTimeOffsetS >= 0.0 && cfg.AvailabilityTimeOffsetS != math.Inf(1)
+func lemmaAvailableExactly(a *asset, rep *RepData, nr uint32, cfg *ResponseConfig, nowMS int) {
+	_, e := findSegMetaFromNr(a, rep, nr, cfg, nowMS)
+	availS := specAvailS(a, rep, cfg, int(nr)-specStartNr(cfg)) - cfg.AvailabilityTimeOffsetS
+	nowS := float64(nowMS) * 0.001
+	assert(implies(nowS < availS, typeIsTooEarly(e)))
+	assert(implies(availS <= nowS && nowS <= availS+float64(*cfg.TimeShiftBufferDepthS), e == nil))
+	assert(implies(e == errGone, nowS > availS+float64(*cfg.TimeShiftBufferDepthS)))
+}
+
+// lemmaInfiniteOffset: an infinite availabilityTimeOffset makes every segment available at any time.
+//@ lemma lemmaInfiniteOffset
+//@   requires a != nil && wfRep(rep) && loopExact(a, rep) && wfCfg(cfg) && 0 <= nowMS && nowMS <= maxNowMS && int(nr) >= specStartNr(cfg)
+//@   requires cfg.AvailabilityTimeOffsetS == math.Inf(1)
+func lemmaInfiniteOffset(a *asset, rep *RepData, nr uint32, cfg *ResponseConfig, nowMS int) {
+	_, e := findSegMetaFromNr(a, rep, nr, cfg, nowMS)
+	assert(e == nil)
+}
